@@ -306,7 +306,7 @@ EXECUTORS = {"pair": ex_pair, "prims": ex_prims, "noop": ex_noop}
 def run(ctx):
     install(ctx)
     thorough = ctx.tier == "thorough"
-    n = (100000 if thorough else 1500) // ctx.nshards
+    n = (500000 if thorough else 1500) // ctx.nshards
     for j in range(n):
         r = ctx.rng("c08", j)
         case = gridcases.gen_case(r, max_cells=30, max_mag=5, max_events=200 if j % 10 == 0 else 40, zero_frac=0.0, rate_lo=-8, rate_hi=1,
@@ -343,7 +343,7 @@ def run(ctx):
         ex_pair(ctx, case, B.tolist(), alpha=float(r.choice([0.01, 0.05, 0.3])), scale=bool(j % 3 == 0), days=int(r.choice([1, 30, 365, 1826])), factors=factors)
         if j % 100 == 0:
             ctx.sample({"cells": len(case["rates"]), "mags": case["nmag"], "n_events": len(case["ev_cell"]), "pair_kind": ["independent", "proportional", "identical", "perturbed", "equal-in-event-bins"][kind]})
-    for j in range((20000 if thorough else 400) // ctx.nshards):
+    for j in range((100000 if thorough else 400) // ctx.nshards):
         r = ctx.rng("c08w", j)
         k = int(r.integers(2, 60))
         x = numpy.round(r.normal(0, 1, k), int(r.integers(0, 3)))
